@@ -19,7 +19,8 @@ RULE = ('operation sequences of length 1-6 over {.attr, [item], [slice], (call),
         'expressions evaluated on the original target; targets are random nested containers seeded with ints, strings, lists '
         'and catalogue callables. Non-trivial: >= 3 operations of >= 2 kinds, or a failure at position >= 1. Three-way '
         'comparison: Coq model, Coq spec (replay of the denoted Python operations), glom; plus direct Python evaluation.')
-ASSUMPTIONS = ['float results, str % formatting, set operators and reflected operands are outside the model (Unmodelled, not counted)',
+ASSUMPTIONS = ['keyword arguments of a recorded call (kwcall:* scenarios: order of evaluation, which failure is reported) are decided on the implementation side against the same call written in Python; the model call step carries positional arguments only',
+               'float results, str % formatting, set operators and reflected operands are outside the model (Unmodelled, not counted)',
                'nested T arguments are evaluated by the model evaluator itself (open recursion) in the Spec layer']
 
 BIN = {'__add__': operator.add, '__sub__': operator.sub, '__mul__': operator.mul, '__floordiv__': operator.floordiv,
@@ -262,10 +263,62 @@ def apply_direct(cur, op, tobj, rl):
     return UN[d](cur)
 
 
+def kwcall_scenarios():
+    """recorded calls that mix positional and KEYWORD arguments holding nested T expressions: like Python, the positional arguments
+    are evaluated first, left to right, then the keyword arguments in the order written; (name, make_target, T expression, plain
+    Python evaluation of the same call). Decided on the implementation side (the model's call step carries positional arguments only)."""
+    from glom import T
+
+    class Src:
+        def __init__(self):
+            self.items = ['a', 'b', 'c', 'd']
+
+        def take(self):
+            return self.items.pop(0)
+
+        def pair(self, *a, **kw):
+            return (a, sorted(kw.items()))
+    f = lambda *a, **kw: (a, sorted(kw.items()))  # noqa: E731
+    return [
+        ('one positional, one keyword, both consuming', Src, T.pair(T.take(), second=T.take()), lambda t: t.pair(t.take(), second=t.take())),
+        ('two positional, two keywords', Src, T.pair(T.take(), T.take(), y=T.take(), x=T.take()), lambda t: t.pair(t.take(), t.take(), y=t.take(), x=t.take())),
+        ('keywords only', Src, T.pair(x=T.take(), y=T.take()), lambda t: t.pair(x=t.take(), y=t.take())),
+        ('positional only', Src, T.pair(T.take(), T.take()), lambda t: t.pair(t.take(), t.take())),
+        ('both fail: the positional one is reported', lambda: {'f': f}, T['f'](T['p'], key=T['q']), lambda t: t['f'](t['p'], key=t['q'])),
+        ('both fail, two keywords: the first keyword is reported', lambda: {'f': f, 'p': 1}, T['f'](T['p'], k1=T['q1'], k2=T['q2']), lambda t: t['f'](t['p'], k1=t['q1'], k2=t['q2'])),
+        ('positional fails after a consuming one', lambda: {'f': f, 'l': [1, 2]}, T['f'](T['l'].pop(), T['zz'], k=T['l'].pop()), None),
+    ]
+
+
+def run_kwcall(case):
+    import glom
+    name, mk, spec, direct = kwcall_scenarios()[case['i']]
+    problems = []
+    t1, t2 = mk(), mk()
+    try:
+        got = ('ok', glom.glom(t1, spec))
+    except glom.PathAccessError as e:
+        got = ('PathAccessError', repr(e.exc))
+    except Exception as e:
+        got = (type(e).__name__, repr(e))
+    if direct is None:
+        # the failing positional argument stops the evaluation before the keyword argument is touched
+        if got[0] != 'PathAccessError' or "'zz'" not in got[1] or t1['l'] != [1]:
+            problems.append('%s: %r, list left %r (one pop, then KeyError zz expected)' % (name, got, t1['l']))
+        return {'problems': problems}
+    try:
+        want = ('ok', direct(t2))
+    except (KeyError, IndexError, AttributeError) as e:
+        want = ('PathAccessError', repr(e))
+    if got != want:
+        problems.append('%s: glom gives %r, the same call written in Python %r' % (name, got, want))
+    return {'problems': problems}
+
+
 def generate(rng, tier):
     g = Gen(rng)
     n = 1500 if tier == 'quick' else 15000
-    return [g.case() for _ in range(n)]
+    return [{'kind': 'kwcall', 'i': i} for i in range(len(kwcall_scenarios()))] + [g.case() for _ in range(n)]
 
 
 def build_t(ops, rl):
@@ -297,6 +350,8 @@ def build_arg(arg, rl):
 
 def run_impl(case):
     import glom
+    if case.get('kind') == 'kwcall':
+        return run_kwcall(case)
     r = Realiser()
     target = r.build(case['target'])
     spec = build_t(case['ops'], r)
@@ -310,6 +365,8 @@ def run_impl(case):
 def direct_oracle(case, out):
     """plain Python evaluation of the same chain must agree with glom (value), and a failure at operation k of kind
     attribute/item/arithmetic must be PathAccessError with part_idx k"""
+    if case.get('kind') == 'kwcall':
+        return '; '.join(out['problems']) if out.get('problems') else None
     r = Realiser()
     tobj = r.build(case['target'])
     cur = tobj
@@ -374,6 +431,8 @@ def ops_coq(ops):
 
 
 def coq_case(case, out):
+    if case.get('kind') == 'kwcall':
+        return '(mkC02 %s %s %s)' % (val_coq(0), ops_coq([]), res_coq({'ok': 0}))
     if 'harness_error' in out or 'harness_timeout' in out:
         impl = '(Unmodelled "harness")'
     else:
@@ -390,6 +449,8 @@ def model_dump_term(case):
 
 
 def nontrivial(case, out):
+    if case.get('kind') == 'kwcall':
+        return True
     kinds = set(d for d, _ in case['ops'])
     if 'raise' in out:
         return out.get('part_idx', 0) >= 1
@@ -397,6 +458,8 @@ def nontrivial(case, out):
 
 
 def classify(case, out):
+    if case.get('kind') == 'kwcall':
+        return 'kwcall:%d' % case['i']
     if 'raise' in out:
         return 'raise:%s/%s' % (out['raise'], out.get('inner'))
     if 'ok' in out:
@@ -410,6 +473,8 @@ def python_snippet(case):
 
 
 def shrink(case, still_fails):
+    if case.get('kind') == 'kwcall':
+        return case
     cur = case
     changed = True
     while changed:
